@@ -122,7 +122,11 @@ def check_program(ctx, name, prog, vm='mbuff', helpers=(), props=('C04',), extra
         cands.append(dict(role=rl, detail=detail, model=md, whole=True, prog=prog.hex(), vm=vm, helpers=[list(h) for h in helpers], inst=list(inst) if inst else None, friendly=True))
     a_sym = BitVec('a_any', 64)
     in_bufs = Or(And(ULE(S.mem_base, a_sym), ULT(a_sym, S.mem_base + S.mem_len)), And(ULE(S.mbuff_base, a_sym), ULT(a_sym, S.mbuff_base + S.mbuff_len)))
-    if not oks and 'C11' not in props: pr.out['errors'].append(f'{name}: interpreter never returns a value (vacuous)')
+    oob_by_construction = False
+    if inst:
+        k_i, i_i = spec.classify(inst[0])
+        oob_by_construction = k_i in ('ldx', 'st', 'stx', 'xadd') and (inst[2] if k_i == 'ldx' else inst[1]) == 10 and inst[3] + i_i['size'] > 0      # r10-based access reaching past the stack top: refused for every input
+    if not oks and 'C11' not in props and not oob_by_construction: pr.out['errors'].append(f'{name}: interpreter never returns a value (vacuous)')
     if 'C04' in props or 'C08' in props or 'C09' in props:
         for ip_ in oks:
             icond = list(ip_.st.pc); v = ip_.payload.payload[0][0].t; covered = []
